@@ -342,7 +342,9 @@ def _norm_sig(sig):
     """call chains are taken relative to the token-loop function, so that a path reached through a public function and the
     same path reached by calling the loop directly have the same signature"""
     out = []
-    for (chain, f, b, d) in sig:
+    for ent in sig:
+        (chain, f, b, d) = ent[:4]
+        deps = ent[4] if len(ent) > 4 else None
         idx = None
         for i, (fname, loc) in enumerate(chain):
             if fname == STEP_FN:
@@ -351,7 +353,7 @@ def _norm_sig(sig):
             chain = tuple(loc for (fname, loc) in chain[idx + 1:])
         else:
             chain = ('<outside>',) + tuple(loc for (fname, loc) in chain)
-        out.append((chain, f, b, d))
+        out.append((chain, f, b, d, deps))
     return tuple(out)
 
 
@@ -547,15 +549,20 @@ def run_keys(mod, keys, jobs=None):
 
 
 # ---- co-feasibility of two outcomes of the same loop-head state ----------------------------------------------------
-def contradictory(sig1, sig2):
-    """do the two paths take different directions at the same branch (same call chain, k-th visit)?"""
+def contradictory(sig1, sig2, ignore=()):
+    """do the two paths take different directions at the same branch (same call chain, k-th visit)?  Decisions whose condition
+    is only about the symbols in `ignore` (by origin) are not compared."""
     def index(sig):
         seen = {}
         out = {}
-        for (chain, f, b, d) in sig:
+        for ent in sig:
+            (chain, f, b, d) = ent[:4]
+            deps = ent[4] if len(ent) > 4 else None
             k = (chain, f, b)
             n = seen.get(k, 0)
             seen[k] = n + 1
+            if ignore and deps is not None and deps and all(x in ignore for x in deps):
+                continue
             out[k + (n,)] = d
         return out
     a, b = index(sig1), index(sig2)
@@ -570,10 +577,18 @@ def contradictory(sig1, sig2):
     return False
 
 
-def cofeasible(o1, o2):
-    if contradictory(o1['sig'], o2['sig']):
+def cofeasible(o1, o2, ignore=()):
+    """can the two outcomes happen on the same loop-head state?  With `ignore` (origins), the named symbols are treated as
+    independent between the two outcomes: constraints and decisions that mention only them are dropped."""
+    if contradictory(o1['sig'], o2['sig'], ignore):
         return False
     c1, c2 = o1['cond'], o2['cond']
+    if ignore:
+        def strip(c):
+            return {'ivl': {o: v for o, v in c['ivl'].items() if o not in ignore},
+                    'rel': [(k, t) for (k, t) in c['rel'] if not any(o in ignore for (o, _) in t)],
+                    'neq': [(k, t) for (k, t) in c['neq'] if not any(o in ignore for (o, _) in t)]}
+        c1, c2 = strip(c1), strip(c2)
     ivl = {}
     for o in set(c1['ivl']) | set(c2['ivl']):
         a = c1['ivl'].get(o, (0, 1 << 64))
